@@ -43,6 +43,7 @@ pub struct Shared {
 
 pub struct SimThread {
     pub idx: usize,
+    pub edge_seed: u64,
     pub shared: Arc<Shared>,
 }
 
@@ -646,6 +647,7 @@ pub fn new_shared(spec: &RunSpec, keep_log: bool) -> (Arc<Shared>, Vec<Arc<SimTh
         .map(|idx| {
             Arc::new(SimThread {
                 idx,
+                edge_seed: spec.sched_seed,
                 shared: shared.clone(),
             })
         })
